@@ -1164,6 +1164,8 @@ func c03Replay(e *Env) error {
 		}
 	case "history", "overlap":
 		return c03ReplayMore(e, rc.Kind, f.Case)
+	case "session":
+		return c03ReplaySession(e, f.Case)
 	default:
 		return fmt.Errorf("C03 replay: unknown case kind %q", rc.Kind)
 	}
@@ -1178,7 +1180,8 @@ func runC03(e *Env) error {
 	}
 	c03TempMaps(e)
 	c03EvalOrder(e)
-	r.Rule = "(j) one list of cases (Go structs with value- and pointer-receiver methods and embedded structs handed in by value and by pointer along four routes, the regression corpora, random programs) rendered in pristine child processes in forward, reverse and random order and in this process: the same bytes after every history; " +
+	r.Rule = "(k) sessions — one engine and one context object render many entry templates one after the other (list order, reverse order, every entry twice, random orders; 4 render entry points; templates registered or fetched through a loader) and every render must give the bytes of that entry alone on a fresh engine with a fresh context: one relative name (./x, ../x, …; 7 forms) used from 6 directories through 10 kinds of include / extends / import / from (required bytes also computed in Go), 21 templates that write their variable scope + a read of every variable + a loop over a map of that size for every context size 0..40, 63..65, 127..129, 255..257, 1000, random mixtures; " +
+		"(j) one list of cases (Go structs with value- and pointer-receiver methods and embedded structs handed in by value and by pointer along four routes, the regression corpora, random programs) rendered in pristine child processes in forward, reverse and random order and in this process: the same bytes after every history; " +
 		"(i) every map / hash-literal / loop form, struct case and re-entered loop with render A stopped before each of its writes (≤ 16 positions) while render B of the same template runs on the same engine: both print what they print alone; " +
 		"(h) loops re-entered through a recursive macro, self-include and mutual include over nested lists / maps vs a walk in Go; " +
 		"(g) evaluation order of 12 hash-literal / include-with entries observed through callbacks, 25 renders each, with two fault positions; (f) one render looping over thousands of short-lived maps with forced collections in between; (e) regression corpora with required outputs (8 pinned defects 30×, 25 repaired defects 200×, 1 child process each); " +
@@ -1229,6 +1232,13 @@ func runC03(e *Env) error {
 		cj, _ := json.Marshal(c)
 		r.Seen("addr:"+string(cj), true)
 		r.Hit("address-probe")
+	}
+	// (k) sessions: one engine and one context object render many entries one after the other
+	tk := time.Now()
+	c03Sessions(e)
+	r.Note(fmt.Sprintf("sessions (one engine, one context object, many entries): %.1fs", time.Since(tk).Seconds()))
+	if r.Full() {
+		return nil
 	}
 	// (h) loops entered again while they run; (i) renders that overlap in time; (j) render histories of the process
 	t0 := time.Now()
